@@ -350,6 +350,9 @@ func c12(c *Ctx) {
 					if ret, okr := an.AsReturn(in); okr && len(ret.Results) == 2 && strings.Contains(tr.OriginString(an.RetVal(ret, 1)), "errs.NotFound") {
 						ok = true
 					}
+					if call, okc := in.(*ssa.Call); okc && strings.HasPrefix(an.CalleeName(call.Common()), "github.com/xelaj/errs.NotFound") {
+						ok = true // made here and handed on through a result variable
+					}
 				}
 			}
 		}
@@ -626,11 +629,15 @@ func c12(c *Ctx) {
 	if f := c.P.Func(load.SessPkg, "*genericFileSessionLoader", "Load"); f != nil {
 		var bad []string
 		n := 0
-		for _, b := range f.Blocks {
-			ret, ok := an.AsReturn(b.Instrs[len(b.Instrs)-1])
-			if !ok || len(ret.Results) != 2 || !strings.Contains(tr.OriginString(an.RetVal(ret, 1)), "errs.NotFound") {
-				continue
+		// judged where the 'not found' error is made: it is returned from there, directly or through the result
+		// variable of a helper that was inlined
+		var made []ssa.Instruction
+		for _, cs := range an.Calls(f) {
+			if strings.HasPrefix(cs.Name, "github.com/xelaj/errs.NotFound") {
+				made = append(made, cs.Instr)
 			}
+		}
+		for _, ret := range made {
 			n++
 			guarded := an.DominatingGuard(f, ret, func(cd *an.Cond) int {
 				if strings.HasSuffix(cd.Kind, "errors.Is") || cd.Kind == "call:os.IsNotExist" || cd.Kind == "call:errors.Is" {
